@@ -68,6 +68,10 @@ type input struct {
 	Vertical bool      `json:"vertical"`
 	Dedup    bool      `json:"dedup,omitempty"` // compactor with --deduplication.replica-label=replica and the penalty merge function
 	Crashes  []int     `json:"crashes"`
+	// Shutdowns[i] >= 0: call i is not killed but shut down gracefully: the compactor's root context is
+	// cancelled at that mutating bucket operation, which returns context.Canceled (as do all later calls
+	// made with that context; code that uses context.Background() goes on); then the process restarts.
+	Shutdowns []int `json:"shutdowns,omitempty"`
 }
 
 var ranges = []int64{1000, 3000, 9000}
@@ -89,6 +93,41 @@ func facts(repo string, w io.Writer) error {
 	if err != nil {
 		return err
 	}
+	// what follows the upload of the result: on ANY upload error the function returns (before the loop
+	// that marks the sources); there is no branch that carries on
+	evs, err := s.CallOrder("Group.compact")
+	if err != nil {
+		return err
+	}
+	var after []common.Event
+	depth, started := 0, false
+	for i, e := range evs {
+		if !started {
+			if e.Kind == "call" && e.Text == "block.Upload" {
+				started = true
+			}
+			_ = i
+			continue
+		}
+		switch e.Kind {
+		case "if":
+			depth++
+			after = append(after, e)
+		case "endif":
+			depth--
+			after = append(after, e)
+		case "else", "return", "for", "endfor":
+			after = append(after, e)
+		}
+		if len(after) > 0 && depth == 0 && e.Kind == "endif" {
+			break
+		}
+	}
+	if len(after) == 0 {
+		return fmt.Errorf("srcfacts: Group.compact: nothing found after block.Upload")
+	}
+	fmt.Fprintln(w, "(* pkg/compact/compact.go: Group.compact — control flow right after the upload of the result block *)")
+	fmt.Fprint(w, common.EventsCoq("after_upload", after))
 	fmt.Fprintln(w, "(* pkg/compact/compact.go: Group.deleteBlock *)")
 	fmt.Fprint(w, cu.CallArgsCoq("deleteBlock_calls", l))
 	l, err = cu.CallArgs(s, "BucketCompactor.Compact", map[string]int{"c.sy.SyncMetas": 0, "c.blocksCleaner.DeleteMarkedBlocks": 0, "c.sy.GarbageCollect": 0, "c.grouper.Groups": 0, "g.Compact": 0})
@@ -562,18 +601,29 @@ func run(raw json.RawMessage) (common.Case, error) {
 		}
 		return names, nil
 	}
-	for call := 0; call < len(in.Crashes)+8; call++ {
-		crash := -1
+	shutdowns := 0
+	for call := 0; call < max(len(in.Crashes), len(in.Shutdowns))+8; call++ {
+		crash, shut := -1, -1
 		if call < len(in.Crashes) {
 			crash = in.Crashes[call]
 		}
+		if call < len(in.Shutdowns) && in.Shutdowns[call] >= 0 {
+			crash, shut = -1, in.Shutdowns[call]
+		}
 		rb := cu.NewRecBucket(inner)
 		rb.CrashAt = crash
-		bc, sy, delMarks, err := newCompactor(ctx, rb, compactDir, in.Vertical, in.Dedup)
+		cctx, cancel := context.WithCancel(ctx)
+		defer cancel()
+		rb.CancelAt, rb.Cancel = shut, cancel
+		bc, sy, delMarks, err := newCompactor(cctx, rb, compactDir, in.Vertical, in.Dedup)
 		if err != nil {
 			return c, err
 		}
-		rerr, crashed, wait := cu.RunAction(rb, func() error { return bc.Compact(ctx) })
+		rerr, crashed, wait := cu.RunAction(rb, func() error { return bc.Compact(cctx) })
+		shutDown := shut >= 0 && cctx.Err() != nil
+		if shutDown {
+			shutdowns++
+		}
 		teardown = append(teardown, func() { rb.Release(); wait() })
 		ops := cu.MutOps(rb.Ops())
 		names, err := absorb(call, ops)
@@ -581,7 +631,7 @@ func run(raw json.RawMessage) (common.Case, error) {
 			return c, err
 		}
 		var cleanupNames []string
-		if !crashed && rerr == nil {
+		if !crashed && rerr == nil && !shutDown {
 			// the cleanup part of the cycle (cmd/thanos/compact.go cleanPartialMarked): aborted partial
 			// uploads left by earlier crashes are made old enough (3 days) to be cleaned
 			objs := inner.Objects()
@@ -607,11 +657,11 @@ func run(raw json.RawMessage) (common.Case, error) {
 		if crashed {
 			crashes++
 		}
-		obs = append(obs, map[string]any{"call": call, "crash_before_op": crash, "crashed": crashed, "error": fmt.Sprint(rerr), "ops": names, "partial_cleanup_ops": cleanupNames})
-		if !crashed && rerr != nil {
+		obs = append(obs, map[string]any{"call": call, "crash_before_op": crash, "crashed": crashed, "shutdown_at_op": shut, "shut_down": shutDown, "error": fmt.Sprint(rerr), "ops": names, "partial_cleanup_ops": cleanupNames})
+		if !crashed && rerr != nil && !shutDown {
 			return c, fmt.Errorf("Compact call %d returned an error without any fault: %v", call, rerr)
 		}
-		if !crashed && len(ops) == 0 {
+		if !crashed && !shutDown && rerr == nil && len(ops) == 0 {
 			quiescent = true
 			break
 		}
@@ -638,11 +688,11 @@ func run(raw json.RawMessage) (common.Case, error) {
 		term = strings.ReplaceAll(term, "@@"+id+"@@", strconv.Itoa(rank))
 	}
 	c.Coq = term
-	c.Class = fmt.Sprintf("blocks=%d vertical=%v crashes=%d", len(in.Blocks), in.Vertical, crashes)
+	c.Class = fmt.Sprintf("blocks=%d vertical=%v crashes=%d shutdowns=%d", len(in.Blocks), in.Vertical, crashes, shutdowns)
 	if in.Dedup {
 		c.Class = fmt.Sprintf("blocks=%d replicas-dedup exact=%v crashes=%d", len(in.Blocks), replicasIdentical(in.Blocks), crashes)
 	}
-	c.Nontrivial = adds >= 1 && crashes >= 1
+	c.Nontrivial = adds >= 1 && crashes+shutdowns >= 1
 	c.Obs = map[string]any{"calls": obs, "blocks_added": adds, "marked": marks, "deleted": dels, "quiescent": quiescent, "original_samples": origTotal}
 	return c, nil
 }
@@ -742,6 +792,9 @@ func gen(r *rand.Rand, tier string, n int) []any {
 			for k := 0; k < 36 && len(out) < n; k++ {
 				out = append(out, input{Vertical: vertical, Blocks: blocks, Crashes: []int{k}})
 			}
+			for k := 0; k < 12 && len(out) < n; k++ {
+				out = append(out, input{Vertical: vertical, Blocks: blocks, Shutdowns: []int{k}})
+			}
 			continue
 		}
 		if r.Intn(4) == 0 {
@@ -752,6 +805,18 @@ func gen(r *rand.Rand, tier string, n int) []any {
 			}
 		}
 		in := input{Vertical: vertical, Blocks: blocks}
+		if r.Intn(4) == 0 {
+			// graceful shutdowns (context cancelled at a mutating operation), possibly mixed with kills
+			n := 1 + r.Intn(2)
+			for i := 0; i < n; i++ {
+				in.Shutdowns = append(in.Shutdowns, r.Intn(12))
+			}
+			if r.Intn(3) == 0 {
+				in.Crashes = []int{-1, -1, r.Intn(12)}
+			}
+			out = append(out, in)
+			continue
+		}
 		switch r.Intn(8) {
 		case 0: // no crash
 		case 1, 2, 3:
